@@ -39,6 +39,7 @@ MUTATORS = {
         ("alias bound to other method", r"quimb/tensor/tensor_core\.py$", r"^(\s+)retag_ = functools\.partialmethod\(retag, inplace=True\)\s*$", r"\1retag_ = functools.partialmethod(reindex, inplace=True)"),
     ],
     "C04": [
+        ("isometrize flags the requested side whatever the shape", r"quimb/tensor/tensor_core\.py$", r"^(\s+)if x\.shape\[0\] < x\.shape\[1\]:\s*$", r"\1if False:", r"^isometrize$"),
         ("merged index collapsed on one tensor only", r"quimb/tensor/tensor_core\.py$", r"^(\s+)tx\.collapse_repeated_\(\)\s*$", r"\1pass"),
         ("gauge applied conditioned, recorded raw", r"quimb/tensor/tensor_core\.py$", r"^(\s+)t\.multiply_index_diagonal_\(ix, g\)\s*$", r"\1t.multiply_index_diagonal_(ix, g ** 1.0)", r"^gauge_simple_insert$"),
         ("idiom -> alias (rewrites)", r"quimb/tensor/tensor_core\.py$", r"^(\s+)(\w+) = (\w+) if inplace else \3\.copy\(\)\s*$", r"\1\2 = \3",
@@ -47,6 +48,7 @@ MUTATORS = {
         ("strip_exponent forgets exponent", r"quimb/tensor/tensor_core\.py$", r"^(\s+)self\.exponent = self\.exponent \+ do\(\"log10\", stripped_factor\)\s*$", r"\1pass"),
     ],
     "C05": [
+        ("fixed-form driver judged by requested absorb", r"quimb/tensor/decomp\.py$", r"^(\s+)if \"absorb\" not in inspect\.signature\(_SPLIT_FNS\[method\]\)\.parameters:\s*$", r"\1if False:", r"^parse_split_left_right_isom$"),
         ("dense fall-back drops renorm", r"quimb/tensor/decomp\.py$", r"^(\s+)x, cutoff, cutoff_mode, max_bond, absorb, renorm\s*$", r"\1x, cutoff, cutoff_mode, max_bond, absorb"),
         ("isometry flag ignores the shape", r"quimb/tensor/tensor_core\.py$", r"^(\s+)left_isom = left\.shape\[-1\] <= prod\(left_dims\)\s*$", r"\1pass"),
         ("eigh keeps signed values", r"quimb/tensor/decomp\.py$", r"^(\s+)s = (xp|np)\.abs\(s\)\s*$", r"\1pass", r"^eigh_truncated"),
@@ -140,6 +142,7 @@ MUTATORS = {
         ("drop rehearse", r"quimb/tensor/(tnag/core|tn1d/core|tn2d/core|tn3d/core)\.py$", r"^(\s+)rehearse=rehearse,\s*$", None),
     ],
     "C14": [
+        ("marginal output chosen by danglingness, not by the query", r"quimb/tensor/belief_propagation/d2bp\.py$", r"^(\s+)if jx == ind:\s*$", r"\1if jx in self.output_inds:", r"^compute_marginal$"),
         ("pair normalised by magnitude only", r"quimb/tensor/belief_propagation/bp_common\.py$", r"^(\s+)return mi / \(sij \* nij \* nii / njj\), mj / \(nij \* njj / nii\)\s*$", r"\1return mi / (nij * nii / njj), mj / (nij * njj / nii)"),
         ("loop expansion without single tensor regions", r"quimb/tensor/belief_propagation/(hd1bp|d1bp|d2bp)\.py$", r"^(\s+)itertools\.chain\(gloops, \(\(tid,\) for tid in self\.tn\.tensor_map\)\)(,?)\s*$", r"\1gloops\2"),
         ("scalar tensors dropped from the batched value", r"quimb/tensor/belief_propagation/hv1bp\.py$", r"^(\s+)if t\.ndim == 0:\s*$", r"\1if False:"),
